@@ -494,6 +494,11 @@ class ExtraOps:
         if k == "slice":
             if "index" in op:
                 return lambda: ops[0].rel[op["index"]]
+            if op.get("pe") is not None and op.get("step") in (None, 1) and (op["start"] or 0) >= 0 \
+                    and (op["stop"] is None or op["stop"] >= (op["start"] or 0)):
+                from lsst.daf.relation import Slice as _Slice
+
+                return lambda: _Slice(op["start"] or 0, op["stop"]).apply(ops[0].rel, **fl)
             return lambda: ops[0].rel[slice(op["start"], op["stop"], op.get("step"))]
         if k == "chain":
             return lambda: ops[0].rel.chain(ops[1].rel)
@@ -563,7 +568,12 @@ class ExtraOps:
 
     @staticmethod
     def _all_engines_sql(op, t):
-        return M.is_sql(t.engine) and op.get("pe") in (None, "sql")
+        """Will the operation certainly be inserted into the SQL engine (which does not support `itonly`)?"""
+        if not M.is_sql(t.engine):
+            return False
+        if op.get("pe") in (None, "sql"):
+            return True
+        return not op.get("bt", True) and not op.get("tr", False)
 
     def op_ill(self, op):
         inner = op["op"]
